@@ -3,9 +3,11 @@ module verif/harness
 go 1.13
 
 require (
+	github.com/abbot/go-http-auth v0.4.1-0.20181019201920-860ed7f246ff
 	github.com/andybalholm/brotli v1.0.0
 	github.com/baidu/go-lib v0.0.0-20200819072111-21df249f5e6a
 	github.com/bfenetworks/bfe v0.0.0
+	github.com/dgrijalva/jwt-go v3.2.0+incompatible
 	github.com/miekg/dns v1.1.29
 	github.com/spaolacci/murmur3 v1.1.0
 )
